@@ -439,6 +439,13 @@ def run_case(ctx, case):
     rtypes = [G.lab(sp, t) for t in types]
     p.totalCorr = randsym(rng, L, rtypes, k if spH == Space.Fourier else rk, spH, 0.5)
     p.directCorr = randsym(rng, L, rtypes, k if spC == Space.Fourier else rk, spC, 0.3)
+    if case['seed'] % 4 == 0:
+        # some pairs carry no correlation at all (exact zeros): an object that was never solved, or populated for some pairs only
+        for arr in (p.totalCorr, p.directCorr):
+            for (i, j), (a, b) in G.pairs(rtypes):
+                if rng.random() < (1.0 if case['seed'] % 8 == 0 else 0.4):
+                    arr[a, b] = np.zeros(L)
+        ctx.hook('exact_zero_pair_functions')
     if case.get('spaceW') == 'Real':
         p.sys.domain.MatrixArray_to_real(p.omega)           # the user looked at omega(r)
     _S['spec'] = sp
